@@ -461,6 +461,7 @@ func (p *c09) Info() PropInfo {
 		Real:        []string{"go-mail eml.go (all three entry points) and the Msg setters it calls", "net/mail, mime, mime/multipart, mime/quotedprintable"},
 		Stubbed:     []string{"stored bytes (fault-injected)", "io.Reader (fault-injecting)", "corpus rendering runs on a virtual clock with seeded randomness"},
 		Exhaustive:  func(string) bool { return false },
+		HangIsViolation: true,
 		QuickBudget: 100 * time.Second, ThoroughBudget: 25 * time.Minute,
 	}
 }
